@@ -65,7 +65,7 @@ def handle_ctors(ctx, cls: str) -> List[Tuple[Func, ast.Call, str]]:
     return out
 
 
-@rule("C04.R1", ["C04", "C05", "C01", "C02", "C03", "C06", "C07"], min_instances=2, design="3.4")
+@rule("C04.R1", ["C04", "C05", "C01", "C02", "C03", "C06", "C07", "C12"], min_instances=2, design="3.4")
 def handle_configuration_agreement(ctx):
     """Every text handle whose bytes end up in the primary file is opened with the storage's encoding and newline."""
     cls = csv_cls(ctx)
@@ -79,7 +79,7 @@ def handle_configuration_agreement(ctx):
             p_ = ctor_param_of(ctx, cls, v, f)
             if p_ != opt:
                 bad.append(f"{opt}={norm(v)} does not resolve to the constructor's `{opt}` parameter")
-        yield Ob("C04.R1", ["C04", "C05", "C01", "C02", "C03", "C06", "C07"], f"{f.qual} | {role} handle configuration | {call_name(c)}(...)", not bad,
+        yield Ob("C04.R1", ["C04", "C05", "C01", "C02", "C03", "C06", "C07", "C12"], f"{f.qual} | {role} handle configuration | {call_name(c)}(...)", not bad,
                  "; ".join(bad) if bad else "encoding and newline are the constructor's", ctx.prog.loc(c))
 
 
@@ -295,6 +295,19 @@ def mode_table(ctx, cls: str, prop: str) -> Tuple[str, Set[str]]:
                 if not raises:
                     raise AnalysisError("modes", f"{cls}.{prop} never raises")
                 return n.left.attr, set(v)
+    # self._helper(("r+", "w", ...)) where the helper tests `self._mode not in <param>` and raises
+    for n in walk_local(f.node):
+        if isinstance(n, ast.Call) and isinstance(n.func, ast.Attribute) and is_self_attr(n.func) and n.args:
+            h = ctx.prog.lookup_method(cls, n.func.attr)
+            v = const_value(n.args[0])
+            if h is None or v is NOCONST or len(h.params()) < 2:
+                continue
+            hp = h.params()[1]
+            for c in walk_local(h.node):
+                if isinstance(c, ast.Compare) and isinstance(c.ops[0], (ast.NotIn, ast.In)) and is_self_attr(c.left) \
+                        and isinstance(c.comparators[0], ast.Name) and c.comparators[0].id == hp \
+                        and any(isinstance(x, ast.Raise) for x in walk_local(h.node)):
+                    return c.left.attr, set(v)
     raise AnalysisError("modes", f"{cls}.{prop}: literal mode table not found")
 
 
@@ -386,7 +399,7 @@ def one_tokenizer(ctx):
 
 
 # ---------------------------------------------------------------------- C12
-@rule("C12.R1", ["C12", "C13"], min_instances=1, design="3.12")
+@rule("C12.R1", ["C12", "C13", "C11"], min_instances=1, design="3.12")
 def atomic_publication(ctx):
     """New contents replace the primary file only by an atomic rename, never by copy-onto or open-for-truncation."""
     cls = csv_cls(ctx)
@@ -413,7 +426,7 @@ def atomic_publication(ctx):
                     for f2, c2, role in handle_ctors(ctx, cls):
                         if role == "TEMP" and kw(c2, "dir") is not None and "dirname" in norm(kw(c2, "dir")):
                             okdir = True
-                    yield Ob("C12.R1", ["C12", "C13"], f"{f.qual} | publication | {norm(c, 70)}", okdir,
+                    yield Ob("C12.R1", ["C12", "C13", "C11"], f"{f.qual} | publication | {norm(c, 70)}", okdir,
                              "atomic rename from a temporary file in the primary's directory" if okdir else
                              "rename from a temporary file that is not created in the primary's directory "
                              "(cross-device rename is not atomic / fails)", ctx.prog.loc(c))
@@ -497,7 +510,7 @@ def durable_append_order(ctx):
 
 
 # -------------------------------------------------------------------- C15.R3
-@rule("C15.R3", ["C15", "C11", "C13"], min_instances=3, design="3.15")
+@rule("C15.R3", ["C15", "C11", "C13", "C12"], min_instances=3, design="3.15")
 def temp_store_pairing(ctx):
     """The temporary store is released (closed and unlinked) on every exit, normal or exceptional, of a temp_storage_op."""
     cls = csv_cls(ctx)
@@ -528,6 +541,26 @@ def temp_store_pairing(ctx):
                    "update/remove" + (" (a rename consumes it only when the swap happens)" if consumed else ""))
     yield Ob("C15.R3", ["C15"], f"{cu.qual} | releases the temporary file", not bad,
              "; ".join(bad) if bad else "closes the handle and removes the file", cu.loc())
+    # (a2) every acquisition starts from a fresh, empty temporary store
+    from ..logic import guard_clauses, guards
+    for cf, cc in creators:
+        cl = guard_clauses(guards(cc))
+        rets = [n for n in walk_local(cf.node) if isinstance(n, ast.Return)
+                and n.lineno < cc.lineno]
+        ok_fresh = not cl and not rets
+        yield Ob("C15.R3", ["C15", "C12", "C11"], f"{cf.qual} | acquisition creates a fresh temporary file", ok_fresh,
+                 "a new temporary file is created unconditionally" if ok_fresh else
+                 f"creation of the temporary file is conditional ({sorted(map(sorted, cl))[:2]} / early return): rows "
+                 f"staged by an earlier, aborted operation are published by the next one", ctx.prog.loc(cc))
+    mc = mem_cls(ctx)
+    mi = ctx.prog.classes[mc].methods.get("_init_temp_storage")
+    if mi is not None:
+        tm = next(iter(ctx.eff.roles[mc].temp_mem), None)
+        fresh = [n for n in walk_local(mi.node) if isinstance(n, ast.Assign) and any(is_self_attr(t, tm) for t in n.targets)
+                 and isinstance(n.value, ast.List) and not n.value.elts]
+        ok_m = len(fresh) == 1 and not guard_clauses(guards(fresh[0]))
+        yield Ob("C15.R3", ["C15", "C11"], f"{mi.qual} | acquisition starts from an empty temporary list", ok_m,
+                 "temporary list rebound to []" if ok_m else "temporary memory is not reset unconditionally", mi.loc())
     # (b) the decorator releases on every exit
     dec = ctx.prog.func("temp_storage_op", "C15.R3")
     ops = ctx.prog.nested(dec)
